@@ -177,3 +177,6 @@ def run(ctx):
             c = e.e.subst(v)
             ok = aff.norm(c.ch[2]) == aff.norm(c.ch[1]) + aff.Poly.atom(lim)
         rd.expect(ok, 'addto:limit', f.where(), 'usage limit must be advanced by a CAS installing old + %s' % lim, note='addto: CAS(usagelmt, ov, ov + %s)' % lim)
+    # (e) clients in generated code: create / addto_usage_limit pairing (corpus)
+    from rules import gen25
+    gen25.check_R25e(ctx)
